@@ -44,6 +44,8 @@ DOM = {
 	"dicts": [{"a": 1, "b": 2}, {"b": 2, "a": 1}, {"a": 1, "b": 3}, {}, {"a": [1, 2]}, {1: "x", "y": None}],      # freshness against an equal dict built in another order
 	"setsum": [{1, 2}, {0, 3}, {1, 4}, {2, 3}, {0, 5}],      # sets of one size whose member hashes have one sum
 	"lookalike": [[1, 2], (1, 2), {1, 2}, [1], (1,), {1}, [], (), [2, 1], (2, 1), {frozenset({0}), frozenset({14})}, [(1, 2)], ([1, 2],)],   # a list is not the tuple / set of its items
+	"empty-containers": [(), 1, [], 2, True, 1.0, 0, (0,), ((), "b"), (1, "b"), ("a", []), ("a", 2), [()], [1], 2.0],      # an empty tuple / list is not the number its bare seed happens to be
+	"bigint": [2**53 + 1, 2**60 + 3, 7, -(2**55) - 1, 2**61 + 1, 2**53 + 3],      # ints no float holds exactly (a promotion rounds them)
 	"nested": [[1, 2], [1], (3, [4]), {"k": 1}, [1, 2], (3.0, float("nan")), [float("nan")], (1, (2.5, float("nan")))],
 }
 
@@ -122,6 +124,20 @@ def run_vector_path(chk, spec):
 	i = rng.randrange(n)
 	new = rng.choice(dom)
 	single = None
+	if spec.get("warnings_error"):
+		# the program runs with warnings turned into errors: a write that warns fails - wherever in the write the warning is issued, the fingerprint
+		# afterwards is that of what the vector then holds
+		import warnings
+		with warnings.catch_warnings():
+			warnings.simplefilter("error")
+			return _vector_path_body(chk, dict(spec, warnings_error=False), rng, v, vals, f0, i, new)
+	return _vector_path_body(chk, spec, rng, v, vals, f0, i, new)
+
+
+def _vector_path_body(chk, spec, rng, v, vals, f0, i, new):
+	kind, path, cached, n = spec["kind"], spec["path"], spec["cached"], spec["n"]
+	dom = DOM[kind]
+	single = None
 	if path == "elem":
 		o = call(lambda: v.__setitem__(i, new)); single = (i, new)
 	elif path == "elem-neg":
@@ -190,7 +206,7 @@ def run_vector_path(chk, spec):
 		o = call(lambda: v.__setitem__(i, None)); single = (i, None)
 	else:
 		o = call(lambda: setattr(v, "name", "renamed"))
-	chk.judged("write-path", ("vpath", path, cached, kind, bool(spec.get("nullable"))))
+	chk.judged("write-path", ("vpath", path, cached, kind, bool(spec.get("nullable")), bool(spec.get("under_error_filter"))))
 	if not o.ok:
 		chk.skip("write-refused")
 		# a refused write must leave the fingerprint as it was
@@ -506,6 +522,106 @@ def run_linear(chk, spec):
 
 RUNNERS["linear"] = run_linear
 
+
+def run_linear_cells(chk, spec):
+	"""the same cancelling write, for cells of EVERY class: the per-cell hashes are dictated through the library's own element-hash hook (instrumented for this
+	case only), so [c, d] -> [c', d'] with h(c') = h(c) + e and h(d') = h(d) - e*K is one write that changes two cells to unequal values whatever their class"""
+	from datetime import date
+	real = Vector.__dict__.get("_hash_element")
+	if real is None:
+		chk.skip("no-element-hash-hook")
+		return
+	realf = real.__func__ if isinstance(real, (staticmethod, classmethod)) else real
+	kind, K, e = spec["kind"], spec["K"], spec["e"]
+	mk = {"tuple": lambda k: (k, "t"), "list": lambda k: [k, "l"], "str": lambda k: f"s{k}", "float": lambda k: k + 0.5, "date": lambda k: date(2020, 1, 1 + k), "object": lambda k: V.Plain(k), "frozenset": lambda k: frozenset({k, -1}),
+		"nested-tuple": lambda k: ((k,), (k, k)), "bytes": lambda k: bytes([65 + k])}[kind]
+	c, d, c2, d2 = mk(1), mk(2), mk(3), mk(4)
+	pad = [mk(5 + k) for k in range(spec["pad"])]
+	a, b = 10 ** 6 + 3, 10 ** 12 + 7
+	table = {id(c): a, id(d): b, id(c2): a + e, id(d2): b - e * K}
+	def fake(x):
+		if id(x) in table:
+			return table[id(x)]
+		return realf(x)
+	pos = spec["pos"]
+	vals = [c, d] + pad if pos == "first" else pad + [c, d]
+	i = 0 if pos == "first" else len(pad)
+	chk.judged("sensitivity", ("linear-cells", kind, K, e, pos, spec["via"]))
+	try:
+		Vector._hash_element = staticmethod(fake)
+		if spec["via"] == "table-row":
+			t = Table([Vector([c] + pad, dtype=object, name="x"), Vector([d] + pad, dtype=object, name="y")])
+			f0 = fp(t)
+			w = call(t.__setitem__, (0, slice(None)), [c2, d2])
+			f1 = fp(t)
+			held = [list(col._underlying)[0] for col in t.cols()]
+		else:
+			v = Vector(list(vals), dtype=object)
+			f0 = fp(v)
+			w = call(v.__setitem__, slice(i, i + 2), [c2, d2]) if spec["via"] == "slice" else call(v.__setitem__, [i, i + 1], [c2, d2])
+			f1 = fp(v)
+			held = list(v._underlying)[i:i + 2]
+	finally:
+		Vector._hash_element = real
+	if not (f0.ok and f1.ok and w.ok) or held[0] is not c2 or held[1] is not d2:
+		chk.skip("linear-cells-write-not-carried-out-as-is")
+		return
+	if f0.value == f1.value:
+		chk.fail("a write that changes elements to unequal values changes the fingerprint", f"fingerprint/insensitive/cancelling-write/cells-of-kind-{kind}/{spec['via']}",
+			f"{spec!r}: cells hashing to ({a}, {b}) replaced in one write by cells hashing to ({a + e}, {b - e * K}): fingerprint still {f0.value}")
+
+
+RUNNERS["linear_cells"] = run_linear_cells
+
+
+def run_row_fingerprint(chk, spec):
+	"""a row of a table is a vector: its fingerprint is that of a freshly built vector of its cells - before and after writes to the table, for rows fetched
+	one by one and for the rows of one iteration; a vector holding a row (or a class that merely defines fingerprint) as a CELL can be fingerprinted too"""
+	import warnings
+	kinds = spec["kinds"]
+	n = 3
+	cols = {"int": [1, 2, 3], "str": ["a", "b", "c"], "float": [0.5, None, 2.5], "tuple": [(1, 2), (), (3,)]}
+	with warnings.catch_warnings():
+		warnings.simplefilter("ignore")
+		t = Table({f"c{j}": list(cols[k]) for j, k in enumerate(kinds)})
+		chk.judged("write-path", ("row-fingerprint", tuple(kinds), spec["how"]))
+		def rows():
+			if spec["how"] == "fetched":
+				for i in range(n):
+					yield i, t[i]
+			else:
+				for i, r in enumerate(t):
+					yield i, r
+		for phase in ("built", "after-write"):
+			if phase == "after-write":
+				jw = next(j for j, k in enumerate(kinds) if k != "tuple")
+				call(t.__setitem__, (1, jw), t.cols()[jw]._underlying[0])
+			for i, r in rows():
+				a = call(r.fingerprint)
+				cells = [c._underlying[i] for c in t.cols()]
+				b = call(lambda: Vector(list(cells), dtype=r.schema()).fingerprint())
+				if not a.ok:
+					chk.fail("fingerprint() works on every vector and table", f"fingerprint/raises/row/{type(a.exc).__name__}", f"{spec!r}: row {i} ({phase}): {a!r}")
+					return
+				if b.ok and a.value != b.value:
+					chk.fail("fingerprint() equals the fingerprint of a freshly built object with the same contents", f"fingerprint/stale/row/{spec['how']}/{phase}", f"{spec!r}: row {i} = {cells!r}: {a.value} vs fresh {b.value}")
+					return
+		class HasFp:
+			def fingerprint(self):
+				return 12345
+		for label, cell in (("row-cell", t[0]), ("class-defining-fingerprint", HasFp), ("the-Vector-class", Vector)):
+			o = call(lambda: Vector([cell, 5], dtype=object).fingerprint())
+			o2 = call(lambda: Vector([cell, 5], dtype=object).fingerprint())
+			if not o.ok:
+				chk.fail("fingerprint() works on every vector and table", f"fingerprint/raises/cell/{label}/{type(o.exc).__name__}", f"{spec!r}: Vector([<{label}>, 5]).fingerprint() raised {o!r}")
+				return
+			if o2.ok and o.value != o2.value:
+				chk.fail("fingerprint() is a function of current contents only", f"fingerprint/unstable/cell/{label}", f"{spec!r}: two equal vectors gave {o.value} and {o2.value}")
+				return
+
+
+RUNNERS["row_fingerprint"] = run_row_fingerprint
+
 def _dd(items):
 	import collections
 	d = collections.defaultdict(int)
@@ -713,6 +829,20 @@ def run(chk):
 					if via == "table-row" and pos != "adjacent-first":
 						continue
 					chk.case("linear", {"a": rng.choice([1, 5, 40]), "b": rng.choice([2, 9, 1700000000]), "d": d, "K": K, "pad": [rng.randrange(10) for _ in range(rng.choice([0, 1, 3]))], "pos": pos, "via": via}, "linear")
+	for K in _multipliers()[:4] if chk.quick() else _multipliers():
+		for kind in ("tuple", "list", "str", "float", "date", "object", "frozenset", "nested-tuple", "bytes"):
+			for via in ("slice", "index-list", "table-row"):
+				for pos in ("first", "last"):
+					for e in (1, -1):
+						chk.case("linear_cells", {"kind": kind, "K": K, "e": e, "pos": pos, "via": via, "pad": rng.choice([0, 1, 3])}, "linear-cells")
+	for kinds in (["int", "int"], ["int", "str"], ["float", "int", "str"], ["tuple", "int"], ["int"]):
+		for how in ("fetched", "iteration"):
+			chk.case("row_fingerprint", {"kinds": kinds, "how": how}, "row-fingerprint")
+	for kind in ("bigint", "int", "float", "date", "bool"):
+		for path in PATHS:
+			for nullable in (False, True):
+				for _ in range(2 if chk.quick() else 6):
+					chk.case("vector_path", {"kind": kind, "path": path, "cached": True, "nullable": nullable, "n": rng.choice([2, 3, 5]), "seed": rng.randrange(10**9), "warnings_error": True, "under_error_filter": True}, "vector-path-warnings-as-errors")
 	reps = 2 if chk.quick() else 8
 	idx = 0
 	for kind in DOM:
